@@ -48,6 +48,7 @@ func randomFilter(r *simrt.RNG, kind string) world.ArgSpec {
 
 func (C09) Gen(r *simrt.RNG, tier string) core.Case {
 	cfg := world.SwarmCfg(r)
+	world.Deepen(&cfg, r, tier)
 	cfg.Once = r.Chance(1, 2)
 	cfg.Built = r.Chance(1, 3)
 	var w world.World
